@@ -61,6 +61,7 @@ func TestC10(t *testing.T) {
 	r.Set("headers_hashing_differently_from_go_ethereum", e.hashNE)
 
 	powCases(e)
+	zeroFeeCases(e)
 }
 
 // ------------------------------------------------------------------ tree case
